@@ -384,6 +384,11 @@ def rule_fail(ctx):
         r.violation(key, C.loc(f, call), "the trial function is called outside any try block: "
                     "one failing trial aborts the whole search")
         return r
+    # the record name: what the wrapped call's result is bound to
+    tname = "trial"
+    for n in ast.walk(tr):
+        if isinstance(n, ast.Assign) and n.value is call and isinstance(n.targets[0], ast.Name):
+            tname = n.targets[0].id
     types = {}
     for h in tr.handlers:
         for t in ([h.type] if not isinstance(h.type, ast.Tuple) else h.type.elts):
@@ -397,7 +402,7 @@ def rule_fail(ctx):
         rec = None
         for n in ast.walk(h):
             if isinstance(n, ast.Assign) and isinstance(n.targets[0], ast.Name) and \
-                    n.targets[0].id == "trial" and isinstance(n.value, ast.Dict):
+                    n.targets[0].id == tname and isinstance(n.value, ast.Dict):
                 rec = n.value
         if rec is None:
             r.violation(k, C.loc(f, h), "handler does not bind a replacement trial record")
